@@ -3,7 +3,7 @@ current working tree (cached by content hash) and offers the resolved program
 to the rule engines: functions with AST + CFG, records, globals, call graph.
 
 Nothing here executes the library under analysis."""
-import os, sys, json, hashlib, subprocess, re, glob, time, pickle
+import shutil, os, sys, json, hashlib, subprocess, re, glob, time, pickle
 from concurrent.futures import ThreadPoolExecutor
 
 VERIF = os.path.dirname(os.path.dirname(os.path.abspath(__file__)))
@@ -91,7 +91,15 @@ def extract(repo=None, extra_flags=(), extra_units=(), roots=None, with_instanti
     done = os.path.join(d, 'DONE')
     if os.path.exists(done):
         return d
+    # several checks may be started at the same time on a tree nobody has analysed yet: each one extracts into a directory
+    # of its own and publishes it with an atomic rename, so nobody ever reads a half-written fact file
+    if os.path.isdir(d):
+        shutil.rmtree(d, ignore_errors=True)        # left behind by an interrupted run (no DONE marker)
+    final_d, final_done = d, done
+    d = '%s.tmp.%d' % (final_d, os.getpid())
+    shutil.rmtree(d, ignore_errors=True)
     os.makedirs(d, exist_ok=True)
+    done = os.path.join(d, 'DONE')
     roots = roots or [repo.rstrip('/') + '/', os.path.join(VERIF, 'tool') + '/', os.path.join(VERIF, 'selftest') + '/']
     jobs = [(u, os.path.join(d, os.path.basename(u).rsplit('.', 1)[0] + '.json')) for u in units + extra]
 
@@ -116,7 +124,13 @@ def extract(repo=None, extra_flags=(), extra_units=(), roots=None, with_instanti
     except OSError:
         pass
     open(done, 'w').write(time.ctime())
-    return d
+    try:
+        os.rename(d, final_d)
+    except OSError:
+        shutil.rmtree(d, ignore_errors=True)        # another process published the same tree first
+    if not os.path.exists(final_done):
+        raise AnalysisBroken('fact cache for %s could not be published' % key)
+    return final_d
 
 
 # ---------------------------------------------------------------------------
@@ -606,8 +620,9 @@ def load_facts(extra_flags=(), repo=None):
         sys.setrecursionlimit(100000)
         fx = Facts(d)
         try:
-            pickle.dump(fx, open(pk + '.tmp', 'wb'), protocol=pickle.HIGHEST_PROTOCOL)
-            os.replace(pk + '.tmp', pk)
+            tmp_pk = '%s.tmp.%d' % (pk, os.getpid())
+            pickle.dump(fx, open(tmp_pk, 'wb'), protocol=pickle.HIGHEST_PROTOCOL)
+            os.replace(tmp_pk, pk)
         except Exception:
             pass
     _FACTS[key] = fx
@@ -627,9 +642,13 @@ def extract_units(units, roots, extra_flags=(), tag='units'):
     for u in sorted(units) + [TOOL_SRC]:
         h.update(u.encode()); h.update(open(u, 'rb').read())
     h.update(' '.join(flags).encode())
-    d = os.path.join(CACHE, tag + '-' + h.hexdigest()[:20])
-    if os.path.exists(os.path.join(d, 'DONE')):
-        return d
+    final_d = os.path.join(CACHE, tag + '-' + h.hexdigest()[:20])
+    if os.path.exists(os.path.join(final_d, 'DONE')):
+        return final_d
+    if os.path.isdir(final_d):
+        shutil.rmtree(final_d, ignore_errors=True)
+    d = '%s.tmp.%d' % (final_d, os.getpid())
+    shutil.rmtree(d, ignore_errors=True)
     os.makedirs(d, exist_ok=True)
     jobs = [(u, os.path.join(d, os.path.basename(u).rsplit('.', 1)[0] + '.json')) for u in units]
     with ThreadPoolExecutor(max_workers=8) as ex:
@@ -638,4 +657,8 @@ def extract_units(units, roots, extra_flags=(), tag='units'):
         if rc != 0 or not os.path.exists(o) or json.load(open(o)).get('errors', 0):
             raise AnalysisBroken('extractor failed on %s: %s' % (u, err[-1500:]))
     open(os.path.join(d, 'DONE'), 'w').write(time.ctime())
-    return d
+    try:
+        os.rename(d, final_d)
+    except OSError:
+        shutil.rmtree(d, ignore_errors=True)
+    return final_d
